@@ -606,8 +606,12 @@ func (x *Exec) execNode(st *State, n ast.Node) []*State {
 					zero := Sym("zero" + x.Tok(name.Pos()))
 					if isBool(x.P.TypeOf(name)) {
 						zero = False
+						c = c.Bind(x.canonEnv(name, nil), zero)
+					} else if _, isStruct := x.P.TypeOf(name).Underlying().(*types.Struct); !isStruct {
+						c = c.Bind(x.canonEnv(name, nil), zero)
+					} else {
+						c = c.Unbind("~" + x.canonEnv(name, nil)) // a struct variable is named by its location
 					}
-					c = c.Bind(x.canonEnv(name, nil), zero)
 					next = append(next, x.Spec.Assign(x, c, name, nil, zero))
 				} else {
 					next = append(next, x.assign(cur, name, rhs, nil)...)
@@ -1139,7 +1143,12 @@ func (x *Exec) valueTerm(st *State, e ast.Expr, env *Env) Term {
 		if b := x.P.Builtin(v); b == "len" || b == "cap" || b == "min" || b == "max" {
 			return Sym(b + "(" + strings.Join(args, ",") + ")")
 		}
-		return Sym(x.canonEnv(v.Fun, env) + "(" + strings.Join(args, ",") + ")" + x.Tok(v.Pos()))
+		fname := x.canonEnv(v.Fun, env)
+		if se, ok := ast.Unparen(v.Fun).(*ast.SelectorExpr); ok && x.P.Info.Selections[se] != nil {
+			// method call: name the receiver by its current value
+			fname = x.ValueName(st, se.X, env) + "." + se.Sel.Name
+		}
+		return Sym(fname + "(" + strings.Join(args, ",") + ")" + x.Tok(v.Pos()))
 	case *ast.BinaryExpr:
 		return Sym("(" + x.ValueName(st, v.X, env) + v.Op.String() + x.ValueName(st, v.Y, env) + ")")
 	case *ast.IndexExpr, *ast.SliceExpr:
@@ -1515,7 +1524,11 @@ func (x *Exec) evalBoolCall(st *State, call *ast.CallExpr, env *Env) []OutB {
 	for _, a := range call.Args {
 		args = append(args, x.ValueName(st, a, env))
 	}
-	return x.OpaqueAtom(st, x.canonEnv(call.Fun, env)+"("+strings.Join(args, ",")+")"+x.Tok(call.Pos()))
+	fname := x.canonEnv(call.Fun, env)
+	if se, ok := ast.Unparen(call.Fun).(*ast.SelectorExpr); ok && x.P.Info.Selections[se] != nil {
+		fname = x.ValueName(st, se.X, env) + "." + se.Sel.Name
+	}
+	return x.OpaqueAtom(st, fname+"("+strings.Join(args, ",")+")"+x.Tok(call.Pos()))
 }
 
 // Inline returns the single returned expression of a same-package helper
